@@ -64,6 +64,8 @@ UNITS = [{
             'ensures': [(['C04'], 'index < self.cells().len() ==> (r matches Ok(c) && *c == self.cells()[index as int])'),
                         (['C04'], 'index >= self.cells().len() ==> r is Err')],
         },
+        # declared although the verified callers do not use it (a change that did would be decided, not refused)
+        'impl Stack::len': {'props': ['C06'], 'ensures': [(['C06'], 'r == self.cells().len()')]},
         'impl Stack::get_sp': {'props': ['C04', 'C06'], 'ensures': [(['C04'], 'r == self.sp_spec()'),
             (['C07'], GET_SP_MODEL.replace('SP', 'm_sp').replace('s0', '*self').replace('r0', 'r'))]},
         'impl Stack::get_offset': {
